@@ -45,6 +45,8 @@ def scenario(rng, kind, tier):
         pass
     elif kind in ('cwmm', 'cbmm'):
         sc['aligner'] = bool(rng.integers(4) == 0) and nlead == 1
+        if kind == 'cwmm':
+            sc['trainer_kw'] = dict(max_concentration=float(rng.choice([500, 50, 20, 200])))
         if kind == 'cbmm':
             sc['opts'] = dict(affiliation_eps=[0, 1e-10][int(rng.integers(2))])
             sc['D'] = int(rng.integers(2, 4))
@@ -98,6 +100,26 @@ def cases(tier, seed, args):
         for i in range(n):
             sc = scenario(rng, ml.KINDS[i % 7], tier)
             out.append(dict(t='model', **sc))
+    if prop == 'C09':
+        n = 70 if q else 700
+        for i in range(n):
+            sc = scenario(rng, ml.KINDS[i % 7], tier)
+            if i % 3 == 0:
+                sc['regime'] = 'degenerate'
+            if i % 5 == 0:
+                sc['init'] = 'hard'
+            if i % 4 == 1:
+                sc['saliency'] = True
+                sc['sal_scale'] = [1e-14, 1e6, 1e-9, 1.0][(i // 4) % 4]
+            if sc['kind'] == 'cwmm' and i % 2:
+                sc['regime'] = 'separable'
+            if i % 11 == 0 and sc['kind'] not in ml.INTEGRATION:
+                sc['N'] = max(2, sc['D'] - 1)         # fewer frames than channels
+                sc['K'] = 2
+            out.append(dict(t='domain', **sc))
+        # fixed input reproducing the recorded known finding (known_findings.json, C09)
+        import json as _json, os as _os
+        out.append(_json.load(open(_os.path.join(_os.path.dirname(__file__), 'c09_known_case.json'))))
     return out
 
 
@@ -211,7 +233,7 @@ def model_case(case, want=('predict', 'fit_predict', 'estep')):
         sam[..., 0] = True
         opts['source_activity_mask'] = sam
     if case['saliency']:
-        opts['saliency'] = rng.uniform(0.1, 2.0, size=(*L, N))
+        opts['saliency'] = rng.uniform(0.1, 2.0, size=(*L, N)) * case.get('sal_scale', 1.0)
     if case.get('aligner'):
         opts['inline_permutation_aligner'] = _aligner_for(L[0], rng)
     fp = f'model={kind};wca={wca};regime={case["regime"]};init={case["init"]};opts={ {k: v for k, v in case["opts"].items()} };' \
@@ -225,7 +247,8 @@ def model_case(case, want=('predict', 'fit_predict', 'estep')):
     if 'estep' in want:
         _verif.register(cb)
     try:
-        model, exc = call(ml.fit, kind, data, init, case['iterations'], opts)
+        model, exc = call(ml.fit, kind, data, init, case['iterations'], opts,
+                          trainer=ml.trainer_for(kind, **case.get('trainer_kw', {})))
     finally:
         _verif.unregister(cb)
     ctx = dict(model=model, data=data, init=init, opts=opts, sam=sam, exc=exc, fp=fp)
@@ -244,7 +267,8 @@ def model_case(case, want=('predict', 'fit_predict', 'estep')):
         recs.append(ml.posterior_record(kind, model, data, aff, wca=wrec, sam=sam, eps=0.0, exc=e, explicit=e in EXPLICIT,
                                         fp=fp + ';call=predict', key=key + ':p', full=[*L, K, N]))
     if 'fit_predict' in want:
-        aff, e = call(ml.fit, kind, data, init, case['iterations'], opts, predict=True)
+        aff, e = call(ml.fit, kind, data, init, case['iterations'], opts, predict=True,
+                      trainer=ml.trainer_for(kind, **case.get('trainer_kw', {})))
         recs.append(ml.posterior_record(kind, model, data, aff, wca=wrec, sam=sam, eps=0.0, exc=e, explicit=e in EXPLICIT,
                                         fp=fp + ';call=fit_predict', key=key + ':fp', full=[*L, K, N]))
     if 'estep' in want and not opts.get('inline_permutation_alignment'):
@@ -268,4 +292,60 @@ def run_case(case):
         return _deflation(case)
     if t == 'model':
         return model_case(case)[0]
+    if t == 'domain':
+        return domain_case(case)
     raise ValueError(t)
+
+
+# ---------------------------------------------------------------------------
+# C09: parameter domains
+def raw_fields(kind, model):
+    f = [ml._field('weight', np.asarray(model.weight, dtype=float))]
+    F = getattr(model, '__dataclass_fields__', {})
+    if 'cacg' in F:
+        f.append(ml._field('cacg_eigenvectors', model.cacg.covariance_eigenvectors, True))
+        f.append(ml._field('cacg_eigenvalues', model.cacg.covariance_eigenvalues))
+    if 'complex_watson' in F:
+        f.append(ml._field('watson_mode', model.complex_watson.mode, True))
+        f.append(ml._field('watson_concentration', model.complex_watson.concentration))
+    if 'complex_bingham' in F:
+        f.append(ml._field('bingham_eigenvalues', model.complex_bingham.covariance_eigenvalues))
+        f.append(ml._field('cacg_eigenvectors', model.complex_bingham.covariance_eigenvectors, True))
+    if 'vmf' in F:
+        f.append(ml._field('vmf_mean', model.vmf.mean))
+        f.append(ml._field('vmf_concentration', model.vmf.concentration))
+    if 'gaussian' in F:
+        g = model.gaussian
+        name = {'Gaussian': 'full', 'DiagonalGaussian': 'diagonal', 'SphericalGaussian': 'spherical'}[type(g).__name__]
+        f.append(ml._field('gaussian_mean', g.mean))
+        f.append(ml._field('gaussian_covariance_' + name, g.covariance))
+        if name == 'full':
+            try:
+                L = np.linalg.cholesky(0.5 * (g.covariance + np.swapaxes(g.covariance, -1, -2)))
+            except np.linalg.LinAlgError:
+                L = np.full_like(g.covariance, np.nan)
+            f.append(ml._field('gaussian_cholesky', L))
+    return f
+
+
+def domain_case(case):
+    recs, ctx = model_case(case, want=())
+    kind = case['kind']
+    L, K, N = case['L'], case['K'], case['N']
+    wca = case['wca']
+    wl = [wca] if isinstance(wca, int) else [int(a) for a in wca]
+    opts = ctx['opts']
+    rec = dict(kind='domain', full=[*L, K, N], wca=wl, wca_int=isinstance(wca, int), integration=kind in ml.INTEGRATION,
+               floor=enc.flt(opts.get('eigenvalue_floor', 1e-10)),
+               norm={'eigenvalue': 'eigenvalue', 'trace': 'trace', False: 'none'}[opts.get('covariance_norm', 'eigenvalue')],
+               kmin=enc.flt(1e-10),
+               kmax=enc.flt(case.get('trainer_kw', {}).get('max_concentration', 500.0) if kind != 'cbmm' else 1e300),
+               eps=enc.flt(opts.get('affiliation_eps', 1e-10 if kind in ('cacgmm', 'gcacgmm', 'vmfcacgmm') else 0.0)),
+               degenerate=case['regime'] == 'degenerate' or case['init'] == 'hard', zero_resultant=False,
+               exc=ctx['exc'], exc_explicit=ctx['exc'] in EXPLICIT, fields=[], fp=ctx['fp'] + ';call=fit;domain',
+               key=f'dom:{case["seed"]}')
+    if ctx['model'] is not None:
+        rec['fields'] = raw_fields(kind, ctx['model'])
+        if 'vmf' in getattr(ctx['model'], '__dataclass_fields__', {}):
+            rec['zero_resultant'] = bool(np.any(np.linalg.norm(ctx['model'].vmf.mean, axis=-1) == 0))
+    return [rec]
